@@ -178,6 +178,9 @@ def _gen_comp(rng, malformed=False):
                     tset = True
             if not tset:
                 rs.insert(rng.randrange(len(rs) + 1), ["val", t])
+            if rng.random() < 0.4:
+                # "later rules can overwrite attributes set by earlier rules": a free attribute after the transfers
+                rs.append(["meta", "tag", f"t{rng.randrange(4)}"])
             return rs
 
         for i in my_ins:
@@ -212,8 +215,12 @@ def _gen_comp(rng, malformed=False):
                     sp["prov_info"] = [deps(excl_out=o, p=0.2), t]
             elif r < 0.25:
                 sp["own"] = t
+                if rng.random() < 0.5:
+                    sp["tag"] = f"o{o}"
             elif r < 0.65:
                 sp["prov_info"] = [deps(excl_out=o), t]
+                if rng.random() < 0.5:
+                    sp["tag"] = f"o{o}"
             elif r < 0.97 or not malformed:
                 sp["rules"] = rules(excl_out=o)
             if sp["own"] is None and sp["rules"] is None and sp["prov_info"] is not None and rng.random() < 0.05:
@@ -397,7 +404,28 @@ def _corpus():
                           _inp(0, own=0, via="shared1")],
                   "outs": [_out(prov_info=[[], 0], prov_data=[[], 10], spare=True)],
                   "comps": [_comp([0, 1], [], 0), _comp([2], [0], 0)]})
+    # seeded/C06_f: a complete transfer followed by a rule overwriting a metadata field must not touch the source slot
+    for extra in ([["meta", "units", "mm"]], [["meta", "tag", "stored water"]],
+                  [["meta", "units", "mm"], ["meta", "tag", "stored water"]], []):
+        cs += _perms(_meta_family(extra))
+    # the same with FromOutput as the complete transfer, for an input's info
+    cs += _perms({"kind": "comp", "start": 0, "auto_start": False,
+                  "ins": [dict(_inp(0, own=0, pull=True), units_none=True), _inp(1, rules=[["out", 2, True], ["meta", "tag", "x"]])],
+                  "outs": [dict(_out(prov_info=[[], 0], prov_data=[[], 10]), units="mm/d", tag="rain rate"),
+                           _out(prov_info=[[], 0], prov_data=[[], 11]),
+                           dict(_out(prov_info=[[], 0], prov_data=[[], 12]), tag="level")],
+                  "comps": [_comp([], [0, 1], 0), _comp([0, 1], [2], 0)]})
     return cs
+
+
+def _meta_family(extra):
+    """Rain.Rate (mm/d, tagged) -> Bucket.Rate (pulled, accepts any units); Bucket.Storage gets its info from
+    [FromInput(Rate)] + extra; Sink pulls Bucket.Storage."""
+    return {"kind": "comp", "start": 0, "auto_start": False,
+            "ins": [dict(_inp(0, own=0, pull=True), units_none=True), dict(_inp(1, own=0, pull=True), units_none=True)],
+            "outs": [dict(_out(prov_info=[[], 0], prov_data=[[], 10]), units="mm/d", tag="rain rate"),
+                     _out(rules=[["in", 0, True]] + extra, prov_data=[[], 11])],
+            "comps": [_comp([], [0], 0), _comp([0], [1], 0), _comp([1], [], 0)]}
 
 
 CORPUS = _corpus()
@@ -429,8 +457,21 @@ def generate(rng, tier):
 # ----------------------------------------------------------------------------------------------
 # implementation driver
 # ----------------------------------------------------------------------------------------------
-def _info(t, static=False):
-    return fm.Info(time=None if static else T(t), grid=fm.NoGrid())
+def _info(t, static=False, units="", tag=None):
+    kw = {}
+    if units != "":
+        kw["units"] = units          # None = "accept the source's units"
+    if tag is not None:
+        kw["c06tag"] = tag           # a free descriptive attribute
+    return fm.Info(time=None if static else T(t), grid=fm.NoGrid(), **kw)
+
+
+def _in_kw(sp):
+    return {"units": None} if sp.get("units_none") else {}
+
+
+def _out_kw(sp):
+    return {"units": sp.get("units") or "", "tag": sp.get("tag")}
 
 
 def _mk_rules(rs):
@@ -443,6 +484,8 @@ def _mk_rules(rs):
         elif r[0] == "out":
             fields = (None if r[1] % 2 == 0 else ["time", "grid"]) if r[2] else ["grid"]
             out.append(tools.FromOutput(f"Out{r[1]}", fields))
+        elif r[0] == "meta":
+            out.append(tools.FromValue("units" if r[1] == "units" else "c06tag", r[2]))
         elif r[1] is None:
             out.append(tools.FromValue("source", "c06"))
         else:
@@ -485,11 +528,11 @@ class HC(fm.TimeComponent):
         case, cs = self._case, self._cs
         for i in cs["ins"]:
             sp = case["ins"][i]
-            info = _info(sp["own"], sp["static"]) if sp["own"] is not None else None
+            info = _info(sp["own"], sp["static"], **_in_kw(sp)) if sp["own"] is not None else None
             self.inputs.add(name=f"In{i}", info=info, static=sp["static"])
         for o in cs["outs"]:
             sp = case["outs"][o]
-            info = _info(sp["own"], sp["static"]) if sp["own"] is not None else None
+            info = _info(sp["own"], sp["static"], **_out_kw(sp)) if sp["own"] is not None else None
             self.outputs.add(name=f"Out{o}", info=info, static=sp["static"])
         self.create_connector(
             pull_data=[f"In{i}" for i in cs["ins"] if case["ins"][i]["pull"]],
@@ -504,11 +547,11 @@ class HC(fm.TimeComponent):
         for i in cs["ins"]:
             sp = case["ins"][i]
             if sp["prov"] is not None and all(_dep_ok(conn, d) for d in sp["prov"][0]):
-                ex[f"In{i}"] = _info(sp["prov"][1], sp["static"])
+                ex[f"In{i}"] = _info(sp["prov"][1], sp["static"], **_in_kw(sp))
         for o in cs["outs"]:
             sp = case["outs"][o]
             if sp["prov_info"] is not None and all(_dep_ok(conn, d) for d in sp["prov_info"][0]):
-                pi[f"Out{o}"] = _info(sp["prov_info"][1], sp["static"])
+                pi[f"Out{o}"] = _info(sp["prov_info"][1], sp["static"], **_out_kw(sp))
             if sp["prov_data"] is not None and all(_dep_ok(conn, d) for d in sp["prov_data"][0]):
                 pd[f"Out{o}"] = float(sp["prov_data"][1])
         before = _count_done(conn)
@@ -627,7 +670,15 @@ def _run_comp(case):
         data = [[us_of(t), _payload(out_obj[o]._unpack(d))] for t, d in out_obj[o].data]
         outs_obs.append([_t_or_nominal(conn.out_infos[nm], _nominal_out(sp), sp["static"]), bool(conn.infos_pushed[nm]),
                          bool(conn.data_pushed[nm]), data])
-    return {"events": log, "error": error, "stall_names": names,
+    def _meta(info):
+        if info is None:
+            return None
+        u = info.meta.get("units")
+        return [info.meta.get("c06tag"), None if u is None else str(u)]
+
+    meta_ins = [[_meta(in_owner[i].connector.in_infos[f"In{i}"]), _meta(in_obj[i].info)] for i in range(len(case["ins"]))]
+    meta_outs = [_meta(out_owner[o].connector.out_infos[f"Out{o}"]) for o in range(len(case["outs"]))]
+    return {"meta_ins": meta_ins, "meta_outs": meta_outs, "events": log, "error": error, "stall_names": names,
             "stall_status": [k for k, s in enumerate(final) if s != "CONNECTED"] if error is not None else None,
             "final": final, "ins": ins_obs, "outs": outs_obs}
 
@@ -721,6 +772,8 @@ def _rule(r):
         return C("FromIn", N(r[1]), B(r[2]))
     if r[0] == "out":
         return C("FromOut", N(r[1]), B(r[2]))
+    if r[0] == "meta":
+        return C("FromVal", NONE)   # sets a metadata field, not the time
     return C("FromVal", OZ(r[1]))
 
 
@@ -815,7 +868,7 @@ def lfp(case):
         return all((d[0], d[1]) in D for d in ds)
 
     def rules_ok(rs):
-        return all(r[0] == "val" or (r[0], r[1]) in D for r in rs)
+        return all(r[0] in ("val", "meta") or (r[0], r[1]) in D for r in rs)
 
     def have_info_in(sp):
         return sp["own"] is not None or (sp["prov"] is not None and deps_ok(sp["prov"][0])) or \
@@ -854,6 +907,87 @@ def _expected_data(case, o, tinfo):
     if tinfo == case["start"]:
         return [[tinfo, p]]
     return [[case["start"], p], [tinfo, p]]
+
+
+ABSENT = "<absent>"
+UNKNOWN = "<unknown>"
+
+
+def _meta_flow(case, key):
+    """Declarative value of one metadata field ("tag": the free attribute c06tag, "units") of every exchanged info:
+    an output holds what was declared for it (constructor / try_connect argument / its rule list, evaluated in order:
+    a complete FromInput/FromOutput takes the field of that slot, FromValue sets it); an input holds its own request
+    where that sets the field, else what the output on its link holds.  Rules affect only the slot they are declared for."""
+    ins, outs = case["ins"], case["outs"]
+    init = ABSENT if key == "tag" else ""
+
+    def rules_val(rs, stack):
+        acc = init
+        for r in rs:
+            if r[0] in ("in", "out") and r[2] and r[1] % 2 == 0:      # complete transfer (no field list)
+                acc = (inv if r[0] == "in" else outv)(r[1], stack)
+            elif r[0] == "meta" and r[1] == key:
+                acc = r[2]
+        return acc
+
+    def outv(o, stack):
+        if ("o", o) in stack:
+            return UNKNOWN
+        sp = outs[o]
+        if sp["own"] is not None or sp["prov_info"] is not None:
+            if key == "tag":
+                return sp.get("tag") or ABSENT
+            return sp.get("units") or ""
+        if sp["rules"] is not None:
+            return rules_val(sp["rules"], stack | {("o", o)})
+        return UNKNOWN
+
+    def inv(i, stack):
+        if ("i", i) in stack:
+            return UNKNOWN
+        sp = ins[i]
+        if sp["own"] is not None or sp["prov"] is not None:
+            req = ABSENT if (key == "tag" or sp.get("units_none")) else ""
+        elif sp["rules"] is not None:
+            req = rules_val(sp["rules"], stack | {("i", i)})
+        else:
+            return UNKNOWN
+        if req == UNKNOWN:
+            return UNKNOWN
+        return req if req != ABSENT else outv(sp["src"], stack | {("i", i)})
+
+    return inv, outv
+
+
+def _meta_eq(key, got, exp):
+    if key == "tag":
+        return (got if got is not None else ABSENT) == exp
+    try:
+        return got is not None and fm.UNITS.Unit(got) == fm.UNITS.Unit(exp)
+    except Exception:
+        return False
+
+
+def _monitor_meta(case, obs):
+    for k, key in enumerate(("tag", "units")):
+        inv, outv = _meta_flow(case, key)
+        for o, m in enumerate(obs["meta_outs"]):
+            if m is None:
+                continue
+            exp = outv(o, frozenset())
+            if exp != UNKNOWN and not _meta_eq(key, m[k], exp):
+                return f"output {o}: exchanged info holds {key} {m[k]!r}, declared for this output: {exp!r}"
+        for i, (mc, mi) in enumerate(obs["meta_ins"]):
+            if mc is None:
+                continue
+            exp = inv(i, frozenset())
+            if exp == UNKNOWN:
+                continue
+            for where, m in (("connector.in_infos", mc), ("inputs[..].info", mi)):
+                if m is not None and not _meta_eq(key, m[k], exp):
+                    return (f"input {i} ({where}) holds {key} {m[k]!r} after connect although {exp!r} was exchanged on its "
+                            f"link with output {case['ins'][i]['src']} (rules only affect the slot they are declared for)")
+    return None
 
 
 def _monitor_comp(case, obs):
@@ -915,7 +1049,7 @@ def _monitor_comp(case, obs):
         exp = _expected_data(case, o, h) if dp else []
         if data != exp:
             return f"output {o}: initial publications {data}, expected {exp} (start {case['start']}, producer info time {h})"
-    return None
+    return _monitor_meta(case, obs)
 
 
 def _monitor_script(case, obs):
